@@ -52,7 +52,7 @@ S0 == [ eph |-> <<>>,            \* ephemeral configuration as committed (Junos!
 
 Pol(exp, n) == exp.policies[n]
 Known(exp, n) == Has(exp, "policies") /\ n \in DOMAIN exp.policies
-Acked(e) == e.fault \in {"none", "close-after"}      \* the reply that was sent is a positive one
+Acked(e) == e.fault \in {"none", "close-after", "late-ok"}      \* the reply that was sent is a positive one (late-ok: after the next request's)
 Mut(e) == Has(e, "mutated") /\ e.mutated            \* the router executed the request, its reply was damaged (C14)
 Executed(e) == Acked(e) \/ Mut(e)
 Effective(e) == ~Has(e, "effective") \/ e.effective    \* a commit that is neither <check/> nor <confirmed/>
@@ -116,13 +116,13 @@ ReqStep(st, e) ==
         !.opened = @ \/ k = "open",
         !.openAcked = @ \/ (k = "open" /\ Acked(e)),
         !.loadsAcked = IF k = "load" /\ ~Acked(e) THEN FALSE ELSE @,
-        !.failed = @ \/ (e.fault \notin {"none", "close-after", "delayed-error"}),
+        !.failed = @ \/ (e.fault \notin {"none", "close-after", "delayed-error", "late-ok"}),
         \* closing the connection after the <ok/> to close-session is what every server does
-        !.faulted = @ \/ (e.fault # "none" /\ ~(k = "close-session" /\ e.fault = "close-after")),
+        !.faulted = @ \/ (e.fault \notin {"none", "late-ok"} /\ ~(k = "close-session" /\ e.fault = "close-after")),
         !.commitSeen = @ \/ k = "commit",
         !.commitAcked = @ \/ (k = "commit" /\ Acked(e) /\ Effective(e)),
-        !.eph = IF k = "commit" /\ (e.fault = "none" \/ Mut(e)) /\ Effective(e) THEN staged1 ELSE @,
-        !.closeDbAcked = @ \/ (k = "close-db" /\ Acked(e) /\ e.fault = "none"),
+        !.eph = IF k = "commit" /\ (e.fault \in {"none", "late-ok"} \/ Mut(e)) /\ Effective(e) THEN staged1 ELSE @,
+        !.closeDbAcked = @ \/ (k = "close-db" /\ Acked(e) /\ e.fault \in {"none", "late-ok"}),
         !.closeSessAcked = @ \/ (k = "close-session" /\ Acked(e)),
         !.updated = @ \cup names, !.deleted = @ \cup dels,
         !.nloads = IF k = "load" THEN @ + 1 ELSE @]
